@@ -49,9 +49,12 @@ class St:
 
 
 class ConScenario(Scenario):
-    def __init__(self, source, at, arf, mr, uni, K):
-        self.params = {"source": source, "ACK_TIMEOUT": at, "ACK_RANDOM_FACTOR": arf, "MAX_RETRANSMIT": mr, "uniform": uni}
-        self.name = "S-CON-%s-%s-%s-%s-%s" % (source, at, arf, mr, uni)
+    def __init__(self, source, at, arf, mr, uni, K, pre="none"):
+        # pre: what happened on this (endpoint, message ID) before the exchange under test
+        #   strayack/strayrst: an unmatched empty ACK/RST carrying the very ID the CON is going to use arrived earlier
+        #   collide: the peer's own request carried the ID the CON is going to use (separate ID spaces must not mix)
+        self.params = {"source": source, "ACK_TIMEOUT": at, "ACK_RANDOM_FACTOR": arf, "MAX_RETRANSMIT": mr, "uniform": uni, "pre": pre}
+        self.name = "S-CON-%s-%s-%s-%s-%s-%s" % (source, at, arf, mr, uni, pre)
         self.K = K
         self.max_steps = 40
 
@@ -61,15 +64,29 @@ class ConScenario(Scenario):
         st = St()
         st.violations = []
         st.horizon_hit = False
-        w = st.world = World(uniform=p["uniform"])
+        pre = p.get("pre", "none")
+        w = st.world = World(uniform=p["uniform"], mid0=0x4242 if pre == "collide" else 0x1000)
+        st.bystander = None
         tt = tuning(p["ACK_TIMEOUT"], p["ACK_RANDOM_FACTOR"], p["MAX_RETRANSMIT"])
         st.tt = tt
         if p["source"] == "request":
             st.node = w.add_context("cli", *CLIENT)
             st.peer = w.add_peer(Silent("srv", *SERVER))
+            if pre == "strayack":
+                w.inject(SERVER, CLIENT, rc.encode((rc.ACK, 0, 0x1000, b"", [], b"")))
+            elif pre == "strayrst":
+                w.inject(SERVER, CLIENT, rc.encode((rc.RST, 0, 0x1000, b"", [], b"")))
+            elif pre == "collide":
+                w.inject(SERVER, CLIENT, rc.encode((rc.NON, 1, 0x4242, b"\x01", [(11, b"nothing")], b"")))
+            w.sent.clear()
             m = Message(code=GET, uri_path=["x"], transport_tuning=tt)
             m.remote = st.node.remote(SERVER)
             st.req = st.node.ctx.request(m, handle_blockwise=False)
+            w.loop.settle()
+            # a bystander: an unrelated request to another endpoint, registered later, that must not be touched
+            b = Message(code=GET, uri_path=["by"], _mtype=1)
+            b.remote = st.node.remote(OTHERIP)
+            st.bystander = st.node.ctx.request(b, handle_blockwise=False)
             st.done_count = [0]
             st.req.response.add_done_callback(lambda f: st.done_count.__setitem__(0, st.done_count[0] + 1))
             w.loop.settle()
@@ -101,7 +118,7 @@ class ConScenario(Scenario):
                 w.loop.advance_to(0.05)
                 st.obs.updated_state()
                 w.loop.settle()
-        cons = [d for d in w.sent if d.src == st.node.addr and d.data[0] & 0x30 == 0x00]
+        cons = [d for d in w.sent if d.src == st.node.addr and d.data[0] & 0x30 == 0x00 and d.dst == st.peer_addr]
         if len(cons) != 1:
             raise core.HarnessFault if False else RuntimeError("setup of %s did not produce exactly one CON: %r" % (self.name, w.trace))
         first = cons[0]
@@ -203,7 +220,7 @@ class ConScenario(Scenario):
         self.check_step(st, label)
 
     def copies(self, st):
-        return [d for d in st.world.sent if d.src == st.node.addr and d.data[0] & 0x30 == 0x00]
+        return [d for d in st.world.sent if d.src == st.node.addr and d.data[0] & 0x30 == 0x00 and d.dst == st.peer_addr]
 
     def check_step(self, st, label):
         w = st.world
@@ -233,6 +250,8 @@ class ConScenario(Scenario):
                 if not ok:
                     st.violations.append(Violation("timeout-does-not-fail-request", "TimeoutError+NetworkError at %.3f" % st.m_end[1],
                                                    repr(f), "messagemanager.py:_retransmit", {}, key="timeout"))
+            if st.bystander is not None and st.bystander.response.done():
+                st.violations.append(Violation("bystander-request-touched", "pending", repr(st.bystander.response), "tokenmanager.py:dispatch_error", {}, key="bystander"))
             if st.done_count[0] > 1:
                 st.violations.append(Violation("completed-twice", 1, st.done_count[0], "protocol.py:Request", {}, key="twice"))
 
@@ -268,7 +287,7 @@ class ConScenario(Scenario):
             st.violations.append(Violation("loop-exception", "none", core.exc_desc(e) if e else msg,
                                            core.site_of(e) if e else "loop", {}, key=type(e).__name__ if e else msg[:40]))
         # replies the endpoint itself sent besides the copies: nothing is expected for empty ACK/RST
-        others = [d for d in w.sent if d.src == st.node.addr and d not in cp and d.t > st.t0]
+        others = [d for d in w.sent if d.src == st.node.addr and d not in cp and d.t > st.t0 and d.dst == st.peer_addr]
         if others:
             st.violations.append(Violation("unexpected-transmission", "none", [repr(d) for d in others], "messagemanager.py", {}, key="tx"))
 
@@ -290,6 +309,11 @@ def scenarios(tier, K):
                 if src != "request" and tier == "quick" and u != "hi":
                     continue
                 out.append(ConScenario(src, a, f, m, u, K))
+    # forced collisions of message IDs (default tuning only)
+    for src, pres in (("request", ("strayack", "strayrst", "collide")), ("separate", ("collide",)), ("notification", ("collide",))):
+        for pre in pres:
+            for (a, f, m) in ((2, 1.5, 4), (0.5, 1.0, 1)):
+                out.append(ConScenario(src, a, f, m, "lo", K, pre))
     return out
 
 
@@ -311,5 +335,5 @@ def run(tier, seed, jobs):
 def replay(case, scenario, seed):
     p = case["params"]
     K = sum(1 for i, lab in case["choices"] if lab != "timer")
-    scn = ConScenario(p["source"], p["ACK_TIMEOUT"], p["ACK_RANDOM_FACTOR"], p["MAX_RETRANSMIT"], p["uniform"], max(K, 1))
+    scn = ConScenario(p["source"], p["ACK_TIMEOUT"], p["ACK_RANDOM_FACTOR"], p["MAX_RETRANSMIT"], p["uniform"], max(K, 1), p.get("pre", "none"))
     return replay_schedule(scn, case["choices"])
